@@ -55,3 +55,33 @@ impl crate::Sim<'_> {
         })
     }
 }
+
+/// Ports held in the socket tables of one host, in table order.
+#[derive(Debug, Clone, PartialEq, Eq)]
+pub struct HostPorts {
+    /// Ports of the UDP binds.
+    pub udp: Vec<u16>,
+    /// Ports of the TCP listener binds.
+    pub tcp: Vec<u16>,
+    /// (local, remote) of every TCP stream entry.
+    pub streams: Vec<(SocketAddr, SocketAddr)>,
+    /// The next candidate of the ephemeral port cursor.
+    pub next_ephemeral: u16,
+}
+
+impl crate::Sim<'_> {
+    /// Ports held by the host at `addr`.
+    pub fn verif_host_ports(&self, addr: IpAddr) -> HostPorts {
+        self.verif_with_host(addr, |h| HostPorts {
+            udp: h.udp.verif_bind_ports(),
+            tcp: h.tcp.verif_bind_ports(),
+            streams: h.tcp.verif_stream_pairs(),
+            next_ephemeral: h.verif_next_ephemeral_port(),
+        })
+    }
+
+    /// The multicast group table: (group address and port, members).
+    pub fn verif_multicast_groups(&self) -> Vec<(SocketAddr, Vec<SocketAddr>)> {
+        self.verif_with_world(|w| w.multicast_groups.verif_listing())
+    }
+}
